@@ -470,11 +470,16 @@ type rsaCfg struct {
 	dealSeed  uint64
 	padSeed   uint64
 	blindSeed uint64
+	flipMask  uint64 // player p is blinded iff blind XOR bit p-1 of flipMask (blinding chosen per signature)
+	round     int    // 1 = first message signed with these KeyShare objects, 2 = second message, same objects
+	remarshal bool   // round 2: the participating key shares went through MarshalBinary/UnmarshalBinary after round 1
 }
 
+func (c rsaCfg) blinded(player int) bool { return c.blind != (c.flipMask>>(uint(player-1)%64)&1 == 1) }
+
 func (c rsaCfg) String() string {
-	return fmt.Sprintf("key=%s l=%d k=%d cache=%v blind=%v parallel=%v padding=%s hash=%v salt=%s/%d msg=%x dealSeed=%d padSeed=%d blindSeed=%d",
-		c.pk.name, c.l, c.k, c.cache, c.blind, c.parallel, c.padding, c.hash, c.saltMode, c.saltLen, c.msg, c.dealSeed, c.padSeed, c.blindSeed)
+	return fmt.Sprintf("key=%s l=%d k=%d cache=%v blind=%v flipMask=%#x parallel=%v padding=%s hash=%v salt=%s/%d msg=%x dealSeed=%d padSeed=%d blindSeed=%d round=%d remarshal=%v",
+		c.pk.name, c.l, c.k, c.cache, c.blind, c.flipMask, c.parallel, c.padding, c.hash, c.saltMode, c.saltLen, c.msg, c.dealSeed, c.padSeed, c.blindSeed, c.round, c.remarshal)
 }
 
 type dealt struct {
@@ -490,7 +495,6 @@ type dealt struct {
 
 // deal runs Deal and PadHash; failures of these documented-to-work steps are reported.
 func deal(t vlib.TB, c rsaCfg) (*dealt, bool) {
-	pub := &c.pk.key.PublicKey
 	var keys []tss.KeyShare
 	var err error
 	if p, st := vlib.Catch(func() {
@@ -503,6 +507,14 @@ func deal(t vlib.TB, c rsaCfg) (*dealt, bool) {
 		vlib.Report(t, "C17/tssrsa/deal-error", fmt.Sprintf("%v: Deal returned %d shares, err=%v", c, len(keys), err))
 		return nil, false
 	}
+	return prepare(t, c, keys)
+}
+
+// prepare pads the message of configuration c for signing with the given key shares (the slice is
+// shared, not copied: a second round signs with the very same KeyShare objects).
+func prepare(t vlib.TB, c rsaCfg, keys []tss.KeyShare) (*dealt, bool) {
+	pub := &c.pk.key.PublicKey
+	var err error
 	d := &dealt{cfg: c, pub: pub, keys: keys, shares: map[int]tss.SignShare{}}
 	var padder tss.Padder
 	if c.padding == "pkcs1v15" {
@@ -544,7 +556,7 @@ func (d *dealt) share(t vlib.TB, player int) (tss.SignShare, bool) {
 	var rnd *vlib.Reader
 	var s tss.SignShare
 	var err error
-	if d.cfg.blind {
+	if d.cfg.blinded(player) {
 		rnd = d.rd
 	}
 	if rnd != nil {
@@ -611,9 +623,28 @@ func (d *dealt) combine(t vlib.TB, subset []int, sub string) bool {
 		}
 	}
 	vlib.Class(sub, "padding="+c.padding)
-	vlib.Class(sub, fmt.Sprintf("blind=%v", c.blind))
+	nb := 0
+	for _, p := range subset {
+		if c.blinded(p) {
+			nb++
+		}
+	}
+	switch {
+	case nb == 0:
+		vlib.Class(sub, "blind=none")
+	case nb == len(subset):
+		vlib.Class(sub, "blind=all")
+	default:
+		vlib.Class(sub, "blind=mixed")
+	}
 	vlib.Class(sub, fmt.Sprintf("cache=%v", c.cache))
-	if prefix {
+	if c.round == 2 {
+		cls := "second-message-same-keyshares"
+		if c.remarshal {
+			cls += "+remarshalled"
+		}
+		vlib.NonTrivial(sub, cls, []byte(c.pk.name), []byte{byte(c.l), byte(c.k)}, []byte(fmt.Sprint(subset)), []byte(c.padding), c.msg, []byte(fmt.Sprint(c.blind, c.flipMask, c.cache, c.saltMode, c.saltLen, c.hash, c.dealSeed)))
+	} else if prefix {
 		vlib.Class(sub, "first-k-players-in-order(trivial)")
 	} else {
 		cls := "subset-not-prefix"
@@ -660,6 +691,29 @@ func (d *dealt) unqualified(t vlib.TB, subset []int, sub string) bool {
 	return true
 }
 
+// nextRound returns the state for signing a second message with the SAME KeyShare objects that
+// signed in round 1 (a key share is a long-lived object: Sign must not disturb it). If remarshal is
+// set, the key shares of the given players first go through MarshalBinary/UnmarshalBinary.
+func (d *dealt) nextRound(t vlib.TB, c2 rsaCfg, players []int) (*dealt, bool) {
+	c2.pk, c2.l, c2.k, c2.cache, c2.dealSeed, c2.round = d.cfg.pk, d.cfg.l, d.cfg.k, d.cfg.cache, d.cfg.dealSeed, 2
+	if c2.remarshal {
+		for _, p := range players {
+			b, err := d.keys[p-1].MarshalBinary()
+			if err != nil {
+				vlib.Report(t, "C17/tssrsa/keyshare-marshal-error", fmt.Sprintf("%v: player %d MarshalBinary: %v", d.cfg, p, err))
+				return nil, false
+			}
+			var k2 tss.KeyShare
+			if err := k2.UnmarshalBinary(b); err != nil {
+				vlib.Report(t, "C17/tssrsa/keyshare-marshal-error", fmt.Sprintf("%v: player %d UnmarshalBinary of its own encoding: %v", d.cfg, p, err))
+				return nil, false
+			}
+			d.keys[p-1] = k2
+		}
+	}
+	return prepare(t, c2, d.keys)
+}
+
 func drawCfg(t *rapid.T, ks []poolKey, l, k int) rsaCfg {
 	c := rsaCfg{l: l, k: k}
 	// large keys are slow with many players: weight towards 1024 bits
@@ -676,6 +730,10 @@ func drawCfg(t *rapid.T, ks []poolKey, l, k int) rsaCfg {
 	c.dealSeed = rapid.Uint64().Draw(t, "dealSeed")
 	c.padSeed = rapid.Uint64().Draw(t, "padSeed")
 	c.blindSeed = rapid.Uint64().Draw(t, "blindSeed")
+	c.round = 1
+	if rapid.Bool().Draw(t, "mixedBlinding") {
+		c.flipMask = rapid.Uint64().Draw(t, "flipMask")
+	}
 	if c.padding == "pss" {
 		emLen := (c.pk.key.N.BitLen() - 1 + 7) / 8
 		maxSalt := emLen - 2 - c.hash.Size()
@@ -730,6 +788,7 @@ func TestC17ThresholdRSA(t *testing.T) {
 		vlib.Class(sub, fmt.Sprintf("l in %s", bucket(l)))
 		vlib.Class(sub, "key="+c.pk.name)
 		nsub := rapid.IntRange(1, 3).Draw(t, "nsubsets")
+		var last []int
 		for i := 0; i < nsub; i++ {
 			size := k
 			if rapid.IntRange(0, 3).Draw(t, "extra") == 0 {
@@ -748,6 +807,33 @@ func TestC17ThresholdRSA(t *testing.T) {
 					return
 				}
 			}
+			last = subset
+		}
+		// second message, signed with the very same KeyShare objects (blinding drawn per signature,
+		// optionally after a MarshalBinary/UnmarshalBinary round trip of the participating shares)
+		c2 := drawCfg(t, []poolKey{c.pk}, l, k)
+		if bytes.Equal(c2.msg, c.msg) {
+			c2.msg = append(append([]byte{}, c.msg...), 0x02)
+		}
+		subset2 := last
+		if rapid.Bool().Draw(t, "freshSubset2") {
+			size := k
+			if rapid.IntRange(0, 3).Draw(t, "extra2") == 0 {
+				size = rapid.IntRange(k, l).Draw(t, "size2")
+			}
+			perm := rapid.Permutation(seqInts(l)).Draw(t, "perm2")
+			subset2 = make([]int, size)
+			for j := range subset2 {
+				subset2[j] = perm[j] + 1
+			}
+		}
+		c2.remarshal = rapid.IntRange(0, 2).Draw(t, "remarshal") == 0
+		d2, ok := d.nextRound(t, c2, subset2)
+		if !ok {
+			return
+		}
+		if !d2.combine(t, subset2, "tssrsa/second-message") {
+			return
 		}
 	})
 }
@@ -834,6 +920,26 @@ func TestC17ThresholdRSAAll(t *testing.T) {
 						if t.Failed() {
 							return
 						}
+					}
+				}
+				// second message with the same KeyShare objects (every player has signed once by now),
+				// other blinding choice, every k-subset again
+				c2 := c
+				c2.msg = append(append([]byte{}, c.msg...), " second message"...)
+				c2.blind, c2.flipMask, c2.remarshal = (x/8)%2 == 0, uint64(x)*0x9e3779b97f4a7c15>>40, x%3 == 0
+				c2.padSeed, c2.blindSeed = c.padSeed+100, c.blindSeed+100
+				all := seqInts(l + 1)[1:]
+				d2, ok := d.nextRound(&reportTB{t: t, cfg: c2}, c2, all)
+				if !ok {
+					if t.Failed() {
+						return
+					}
+					continue
+				}
+				for _, s := range subsets {
+					d2.combineDirect(t, s, sub+"/second-message")
+					if t.Failed() {
+						return
 					}
 				}
 			}
